@@ -96,11 +96,14 @@ Fixpoint find_core (c : core) (l : list item) : option N :=
   | (c', la) :: r => if core_eqb c c' then Some la else find_core c r
   end.
 
+(* state s holds an item with core c whose look-ahead set covers `need`
+   (nothing is required when `need` is empty: lr1.py creates no item without look-aheads) *)
 Definition has_item (I : icert) (s : N) (c : core) (need : N) : bool :=
-  match nget I s with
-  | Some l => match find_core c l with Some la => subset need la | None => false end
-  | None => false
-  end.
+  N.eqb need 0
+  || match nget I s with
+     | Some l => match find_core c l with Some la => subset need la | None => false end
+     | None => false
+     end.
 
 Definition rhs_of (G : grammar) (po : option N) : option (list N) :=
   match po with
@@ -293,16 +296,6 @@ Section Completeness.
     apply andb_true_iff in H. destruct H as [H _]. exact H.
   Qed.
 
-  Lemma c_init : holds 0 (None, O) (t_eoi T).
-  Proof.
-    unfold check_complete in Hcheck. apply andb_true_iff in Hcheck. destruct Hcheck as [H _].
-    apply andb_true_iff in H. destruct H as [_ H]. unfold has_item in H.
-    destruct (nget I 0) as [l|] eqn:El; [|discriminate].
-    destruct (find_core (None, O) l) as [la|] eqn:Ef; [|discriminate].
-    exists l, la. split; [exact El|]. split; [apply find_core_In; exact Ef|].
-    eapply subset_mem; eauto. apply mem_bit_same.
-  Qed.
-
   Lemma c_item : forall s l it, nget I s = Some l -> In it l -> check_item G T I F s it = true.
   Proof.
     intros s l it Hg Hin. unfold check_complete in Hcheck. apply andb_true_iff in Hcheck.
@@ -314,10 +307,20 @@ Section Completeness.
   Lemma has_item_holds : forall s c need b, has_item I s c need = true -> mem need b = true -> holds s c b.
   Proof.
     unfold has_item. intros s c need b H Hm.
+    destruct (N.eqb need 0) eqn:E0.
+    { apply N.eqb_eq in E0. subst. rewrite mem_0 in Hm. discriminate. }
+    simpl in H.
     destruct (nget I s) as [l|] eqn:El; [|discriminate].
     destruct (find_core c l) as [la|] eqn:Ef; [|discriminate].
     exists l, la. split; [exact El|]. split; [apply find_core_In; exact Ef|].
     eapply subset_mem; eauto.
+  Qed.
+
+  Lemma c_init : holds 0 (None, O) (t_eoi T).
+  Proof.
+    unfold check_complete in Hcheck. apply andb_true_iff in Hcheck. destruct Hcheck as [H _].
+    apply andb_true_iff in H. destruct H as [_ H].
+    eapply has_item_holds; [exact H|apply mem_bit_same].
   Qed.
 
   (* L1: the transition on the symbol after the dot exists and carries the item over *)
@@ -537,4 +540,17 @@ Proof.
   - left. apply Hgen; [reflexivity|discriminate].
   - left. apply Hgen; [reflexivity|discriminate].
   - right. reflexivity.
+Qed.
+
+(* Tables that pass check_complete exist only for unambiguous grammars: two derivation
+   trees of the same token string are equal. *)
+Theorem unambiguous : forall G T I F t1 t2 toks,
+  check_complete G T I F = true ->
+  derives G (g_start G) t1 0%nat toks -> derives G (g_start G) t2 0%nat toks -> t1 = t2.
+Proof.
+  intros G T I F t1 t2 toks Hc H1 H2.
+  destruct (run_complete_gen G T I F Hc t1 toks H1) as [n1 E1].
+  destruct (run_complete_gen G T I F Hc t2 toks H2) as [n2 E2].
+  specialize (E1 n2). specialize (E2 n1). rewrite Nat.add_comm in E2. rewrite E1 in E2.
+  inversion E2. reflexivity.
 Qed.
